@@ -164,6 +164,28 @@ def gen_fragflood(rng, i, tier):
     plan = [op for op in case["plan"] if op["op"] == "connect"]
     n = rng.choice([240, 262, 300])
     t = 1.0
+    if rng.random() < 0.5:
+        # the other order: the retried fragmented messages go first and lose their acks; with a long message timeout their
+        # fragments are re-sent (under new message numbers) only after several hundred other fragmented messages have
+        # completed at the receiver - a steady stream at the send cap, no backlog
+        mt = rng.choice([6.0, 11.0, 14.0])
+        cfg["msg_timeout"] = cfg["server"]["msg_timeout"] = cfg["clients"][0]["msg_timeout"] = mt
+        for j in range(rng.choice([1, 2, 4])):
+            plan.append({"op": who, "c": 0, "t": round(t + 0.01 * j, 4), "len": cap1 + 1 + rng.randrange(0, 900), "kind": 0,
+                         "retry": rng.choice([1, -1, -1]), "cb": False, "api": "send"})
+        back = {"send": "src", "ssend": "dst"}[who]
+        cfg["phases"] = [{"t0": t - 0.05, "t1": t + 1.3, back: "S", "cut": True}]     # > 32 datagrams of the flood: the acks are gone for good
+        t += 0.1
+        n = int((mt + 1.5) * 60 / 2.2)
+        for j in range(n):
+            plan.append({"op": who, "c": 0, "t": round(t, 4), "len": cap1 + 1 + rng.randrange(0, 40), "kind": rng.choice([0, 3]),
+                         "retry": 0, "cb": False, "api": "send"})
+            t += 2.2 / 60
+        cfg["t_heal"] = 2.0
+        cfg["duration"] = round(t + 5.0, 3)
+        case["plan"] = plan
+        case["fragflood"] = "retried-first"
+        return case
     for j in range(n):
         plan.append({"op": who, "c": 0, "t": round(t, 4), "len": cap1 + 1 + rng.randrange(0, 40), "kind": rng.choice([0, 3]),
                      "retry": 0, "cb": False, "api": "send"})
